@@ -67,6 +67,9 @@ func init() {
 		c17Disruption(c)
 		gElect(c)
 	}})
+	register(&PropertyRule{ID: "C16", Explain: "structural necessary conditions of C16 (flow control and size limits): see DESIGN.md §5 C16", Run: func(c *Check) {
+		c16FlowControl(c)
+	}})
 	register(&PropertyRule{ID: "C03", Explain: "structural necessary conditions of C03 (log matching): see DESIGN.md §5 C03", Run: func(c *Check) {
 		gTrunc(c)
 		gStable(c)
